@@ -1411,6 +1411,24 @@ func (s *sim) execFetch(op Op) {
 	s.fetchReqs = append(s.fetchReqs[:i], s.fetchReqs[i+1:]...)
 	for _, ph := range s.knownAt(fr.H) {
 		if string(ph.Header.Hash) == fr.Hash {
+			// a fetcher matches on height and hash (its documented contract); the peer it asked may have
+			// sent lists that differ from what the hashes inside the header stand for
+			switch op.V {
+			case 1:
+				if nv, ok := s.w.lookup(ph.Header.NextValidatorSet.PubKeyHash, ph.Header.NextValidatorSet.VotePowerHash); ok {
+					ph.Header.NextValidatorSet = s.w.forgedList(nv, false)
+					s.w.forged[string(ph.Header.Hash)+"|"+string(ph.Signature)] = true
+					s.label("fetch-answer-forged-next-list")
+				}
+			case 2:
+				if cv, ok := s.w.lookup(ph.Header.ValidatorSet.PubKeyHash, ph.Header.ValidatorSet.VotePowerHash); ok {
+					f := s.w.forgedList(cv, false)
+					ph.Header.ValidatorSet.Validators = append([]tmconsensus.Validator(nil), ph.Header.ValidatorSet.Validators...)
+					ph.Header.ValidatorSet.PubKeys = f.PubKeys
+					s.w.forged[string(ph.Header.Hash)+"|"+string(ph.Signature)] = true
+					s.label("fetch-answer-foreign-pubkeys")
+				}
+			}
 			select {
 			case s.n.fetch.FetchedCh <- ph:
 				s.label("fetch-answered")
